@@ -139,6 +139,24 @@ CLAIMS = {
              "stdout and exit status through a file and through the pipe. Partial: behaviour after an unbalanced-parentheses "
              "error and after (exit) is not compared.",
         design_ref="5 C20"),
+    "C06": dict(
+        technique="Lean 4 proof (resolution-refutation checker sound: leaves of an accepted refutation are jointly unsatisfiable) plus certified re-decision of every printed core",
+        text="Theorem checkRefutation_sound (the proof-level part of core extraction). The bookkeeping from proof leaves to "
+             "assertions and names (partition masks, TermNames, scoping) is not mirrored; it is decided per run: every printed "
+             "core of generated histories (named/unnamed/duplicate assertions, ite terms, push/pop, full-core mode) must list "
+             "distinct names of current assertions, and core + unnamed current assertions is re-decided with certified "
+             "verdicts (unsat: the Lean machine accepts the trace of a fresh run; sat: the Lean evaluator validates the printed "
+             "model = certified violation). Full-core formulas are matched to current assertions by Lean evaluation.",
+        design_ref="5 C06"),
+    "C07": dict(
+        technique="Lean 4 proof (performNaive over any monotone unsatisfiability oracle yields an irreducible unsatisfiable sublist) plus certified drop-one re-decision of printed minimal cores",
+        text="Theorem naive_irreducible for the mirror of UnsatCoreBuilder::Minimize::performNaive: for every monotone oracle, "
+             "background and duplicate-free target list, the result is unsatisfiable with the background, a sublist of the "
+             "targets, and no single member can be removed. Tie: every printed minimal core of generated histories: each member "
+             "is dropped in turn and the rest (with the unnamed current assertions) must be satisfiable, with certified verdicts "
+             "as in C06. Partial: that the inner solver is a correct monotone oracle is C01/C02; which terms are background is "
+             "not mirrored.",
+        design_ref="5 C07"),
 }
 
 PENDING = "not yet built in this round; design in DESIGN.md section 5, construction order in section 10"
